@@ -232,20 +232,29 @@ public:
         }
         std::optional<T> get_value_lk(Handle h, subscribtion_type type) {
             subreg_t &l = _regs[h];
-            if (l._kicked || l._pos == _pos) return {};
+            if (l._kicked || l._pos >= _pos) return {};
             switch (type) {
                 default:
                 case subscribtion_type::all_values: {
                     std::size_t relpos = _pos - l._pos - 1;
-                    if (relpos >= _q.size()) return {};
+                    if (relpos >= _q.size()) {
+                        l._kicked = true;   //left behind - dropped for good
+                        return {};
+                    }
                     return _q[relpos];
                 }
                 case subscribtion_type::skip_if_behind: {
                     std::size_t relpos = _pos - l._pos - 1;
-                    if (relpos >= _q.size()) relpos = _q.size()-1;
+                    if (relpos >= _q.size()) {
+                        relpos = _q.size()-1;
+                        //remember which position is actually delivered
+                        l._pos = _pos - 1 - relpos;
+                    }
                     return _q[relpos];
                 }
                 case subscribtion_type::skip_to_recent: {
+                    //remember which position is actually delivered
+                    l._pos = _pos - 1;
                     return _q[0];
                 }
             }
